@@ -457,6 +457,9 @@ def check_coverage(F, run, prop_rule, path, kind, moments=False):
                         for j, q in enumerate(args):
                             if j != c and sp.expand(q - p[j]) != 0:
                                 ok_src = False
+            if written and kind == "lm-analytic":
+                ats = list(e.atoms(sp.Function))
+                ok_src = ok_src and len(ats) == 1 and e == ats[0]      # exactly component c of the gradient at xs[r]: no factor, no sum
             run.check(written, prop_rule, path, "coverage:entry(%d,%d)-written" % (r, c), where,
                       "entry (%d, %d) of the %d×%d Jacobian is never written (loop bounds do not cover the matrix): it keeps %s" % (r, c, rows, cols, mat[r, c]),
                       sample="entry (%d,%d) written" % (r, c))
